@@ -1007,6 +1007,24 @@ def kind_str(op):
     return op['k']
 
 
+COMMON = []    # query paths asked of EVERY message (set per run from the pool: its most frequent descriptors)
+
+
+def common_paths(pool):
+    """a handful of path expressions built from the descriptors that occur in most messages of the pool: the SAME request
+    string then reaches a kept querent for many different messages (different numbers of subsets, different values)"""
+    freq = {}
+    for m, ps in pool['paths'].items():
+        for p in set(ps):
+            if len(p) == 6 and p.isdigit():
+                freq[p] = freq.get(p, 0) + 1
+    top = [p for p, _ in sorted(freq.items(), key=lambda x: (-x[1], x[0]))[:2]]
+    out = ['/999999']
+    if top:
+        out += [top[0], '@[0] > %s' % top[0], '@[::2] > %s[0]' % top[-1]]
+    return out
+
+
 def gen_view(rng, paths, hrng=None):
     """a view request; the variety per message is kept small (4 paths, 3 metadata expressions chosen per message by `hrng`)
     so that the same request comes back often within and across histories"""
@@ -1014,7 +1032,7 @@ def gen_view(rng, paths, hrng=None):
     if r < 0.55:
         return ['r', rng.choice(RENDERERS)]
     if r < 0.85 and paths:
-        return ['q', rng.choice(paths)]
+        return ['q', rng.choice(COMMON) if COMMON and rng.random() < 0.4 else rng.choice(paths)]
     return ['md', rng.choice(MD_EXPRS[:4])]
 
 
@@ -1116,7 +1134,7 @@ def xv_views(rng, pool, m):
     if r < 0.80:
         return ['r', 'flat_json']
     if ps:
-        return ['q', ps[rng.randrange(min(2, len(ps)))]]
+        return ['q', rng.choice(COMMON) if COMMON and rng.random() < 0.5 else ps[rng.randrange(min(2, len(ps)))]]
     return ['md', MD_EXPRS[2]]
 
 
@@ -1175,6 +1193,10 @@ def gen_stream_history(rng, pool, n_msgs):
     names = [m for f in pool['xv'] if f['shape'] in ('wide-assoc', 'assoc', 'marker', 'chain', 'qa222', 'seq') for m in f['msgs']]
     names += [m['name'] for m in pool['msgs'] if m['cls'] == 'synthetic' and m['name'] != 'syn_f11_203']
     few = rng.sample(names, min(len(names), rng.randint(2, 6)))
+    # whole families: their members answer to the same path expressions
+    for f in rng.sample(pool['xv'], min(len(pool['xv']), rng.randint(1, 2))):
+        few += [m for m in f['msgs'] if m not in few]
+    rng.shuffle(few)
     kinds = rng.choice([['flat_text'], ['flat_text'], ['flat_text', 'nested_text'], ['nested_text', 'nested_json'], ['flat_text', 'flat_json']])
     ops = []
     for i in range(n_msgs):
@@ -1182,10 +1204,11 @@ def gen_stream_history(rng, pool, n_msgs):
         ops.append({'k': 'proc', 'src': 'dec', 'c': c, 'm': m, 'wire': True})
         for kd in kinds:
             ops.append({'k': 'view', 'src': 'dec', 'c': c, 'm': m, 'v': ['r', kd], 'ro': 0})
-        if rng.random() < 0.3:
+        if rng.random() < 0.6:
             ps = pool['paths'].get(m, [])
-            if ps:
-                ops.append({'k': 'view', 'src': 'dec', 'c': c, 'm': m, 'v': ['q', ps[0]], 'ro': 0})
+            if ps or COMMON:
+                ops.append({'k': 'view', 'src': 'dec', 'c': c, 'm': m, 'ro': 0,
+                            'v': ['q', rng.choice(COMMON) if COMMON and (not ps or rng.random() < 0.6) else ps[0]]})
         ops.append({'k': 'drop'})
     return ops
 
@@ -1471,6 +1494,9 @@ def run(ctx):
         gpool = dict(pool, paths={m: prng.sample(ps, min(npaths, len(ps))) for m, ps in sorted(pool['paths'].items())},
                      cfgs={x['name']: (list(CFGS) if x['cls'] == 'synthetic' and 'hex' in x else prng.sample(CFGS, ncfg))
                            for x in pool['msgs'] + pool['jsons']})
+        del COMMON[:]
+        COMMON.extend(common_paths(pool))
+        ctx.notes.append('query paths asked of every message: %s' % COMMON)
         nh = 52 if ctx.tier == 'quick' else 600
         for i in range(nh):
             limit = rng.choice([1, 2, 3]) if (ctx.tier == 'quick' or i % 10) else 50
